@@ -1,5 +1,5 @@
 \* emission: one observation line per (th, bc, c, pitch) and one line per generator / changePitch step
-CONSTANTS R = 6  MaxLevel = 2  RectPitches <- RectP  SquarePitches <- SquareP
+CONSTANTS R = 4  MaxLevel = 2  RectPitches <- RectP  SquarePitches <- SquareP
 ACTION_CONSTRAINT Emit
 INVARIANT EmitState
 INIT Init
